@@ -476,3 +476,56 @@ func c04Chain(N int) {
 
 func H_c04_chain_q() { c04Chain(4) }
 func H_c04_chain_t() { c04Chain(5) }
+
+// c04Fields: the saved image is lossless for the DFS bookkeeping whatever its values: the
+// iterator is advanced k graphs into a small search, then every entry of currentPath and
+// choices is replaced by a symbolic value in [0, 2^13] (the number of untried augmentations
+// at a level is at most 2^level; a search on 14 vertices reaches 2^13), and Save + Load must
+// hand back exactly those values.  The state need not be reachable: this is the one-step
+// "Save/Load is the identity on the fields it carries" contract, which a search deep enough
+// to produce large counts (n >= 10, thousands of graphs) relies on.
+func c04Fields(N int) {
+	n := 2 + rt.Choice("n", N-1)
+	no := func(g *graph.DenseGraph) bool { return false }
+	orig := WithPruning(n, 0, 1, no, no)
+	k := rt.Choice("advance", 4)
+	for i := 0; i < k; i++ {
+		orig.Next()
+	}
+	for i := range orig.currentPath {
+		orig.currentPath[i] = rt.IntIn("path", 0, 1<<13)
+	}
+	for i := range orig.choices {
+		orig.choices[i] = uint(rt.IntIn("choice", 0, 1<<13))
+	}
+	wantPath := append([]int{}, orig.currentPath...)
+	wantChoices := append([]uint{}, orig.choices...)
+	var buf bytes.Buffer
+	p, msg := rt.Panics(func() { orig.Save(&buf) })
+	rt.Check(!p, "Save panicked: "+msg)
+	if p {
+		return
+	}
+	var loaded *GraphIterator
+	p, msg = rt.Panics(func() { loaded = Load(&buf, no, no) })
+	rt.Check(!p, "Load panicked: "+msg)
+	if p {
+		return
+	}
+	rt.Check(len(loaded.currentPath) == len(wantPath), "Load: currentPath has a different length")
+	rt.Check(len(loaded.choices) == len(wantChoices), "Load: choices has a different length")
+	for i := range wantPath {
+		if i < len(loaded.currentPath) {
+			rt.Check(loaded.currentPath[i] == wantPath[i], "Save/Load does not preserve the number of untried augmentations of a level")
+		}
+	}
+	for i := range wantChoices {
+		if i < len(loaded.choices) {
+			rt.Check(loaded.choices[i] == wantChoices[i], "Save/Load does not preserve a pending choice")
+		}
+	}
+	rt.Check(loaded.first == orig.first && loaded.n == orig.n && loaded.a == orig.a && loaded.m == orig.m, "Save/Load does not preserve the configuration")
+	rt.Reach("end")
+}
+
+func H_c04_fields_q() { c04Fields(4) }
